@@ -37,6 +37,8 @@ type RecFact struct {
 	EffTTL    uint32
 	AbsNames  []wm.Name // absolute RDATA names
 	AbsOrigin wm.Name   // KOrigin / KInclude with origin: the absolute value
+	// number of records of the denotation before this item started / after it finished
+	RecsBefore, RecsAfter int
 }
 
 // Denotation is the meaning of a zone model.
@@ -159,6 +161,7 @@ func Denote(z *Zone) (*Denotation, error) {
 }
 
 func (ip *interp) fact(file string, n, item int, f RecFact) {
+	f.RecsAfter = len(ip.den.Recs)
 	fs := ip.den.Facts[file]
 	if fs == nil {
 		fs = make([][]RecFact, n)
@@ -191,6 +194,7 @@ func (ip *interp) file(file string, st *State) error {
 		}
 		it := &items[i]
 		f := ip.snapshot(st)
+		f.RecsBefore = len(ip.den.Recs)
 		switch it.Kind {
 		case KRec:
 			rec, err := st.Record(it, &f)
@@ -274,9 +278,12 @@ func (ip *interp) file(file string, st *State) error {
 				ip.fact(file, len(items), i, f)
 				return nil
 			}
-			ip.fact(file, len(items), i, f)
 			if err := ip.file(fname, &sub); err != nil {
 				return err
+			}
+			ip.fact(file, len(items), i, f)
+			if ip.den.Err != "" {
+				return nil
 			}
 			// the includer's origin and TTL state are as before; what is not asserted:
 			st.OwnerUnknown = true
